@@ -63,13 +63,13 @@ Definition fieldref_matches (r : fieldref) (o : object) (f : field) : bool :=
   seqb (o_selfpkg o) pkg && equal_fold (o_name o) obj && equal_fold (f_name f) fld.
 
 (* ---------- the default traversal of compiler.Visitor ----------
-   Visits array values, map VALUES (never the index type), struct field types, disjunction
+   Visits array values, map index and value types, struct field types, disjunction
    and intersection branches; calls `leaf` on enums, scalars, refs and constant refs.
    Enum member types, hint payloads and slot/unknown kinds are never visited. *)
 Fixpoint tmap (leaf : ty -> ty) (t : ty) : ty :=
   match t with
   | TArray a v => TArray a (tmap leaf v)
-  | TMap a i v => TMap a i (tmap leaf v)
+  | TMap a i v => TMap a (tmap leaf i) (tmap leaf v)
   | TStruct a dh fs =>
       TStruct a dh (map (fun f => mkField (f_name f) (f_comments f) (tmap leaf (f_type f)) (f_required f)) fs)
   | TDisj a d => TDisj a (mkDisj (map (tmap leaf) (d_branches d)) (d_disc d) (d_mapping d))
@@ -114,13 +114,21 @@ Definition register_objects (s : schema) (news : list object) : schema :=
 Definition rename_ref_leaf (pkg obj to : string) (t : ty) : ty :=
   match t with
   | TRef a p n => if objref_matches_ref (pkg, obj) p n then TRef a p to else t
+  | TConstRef a p n v => if objref_matches_ref (pkg, obj) p n then TConstRef a p to v else t
   | _ => t
   end.
 Definition rename_object_obj (pkg obj to : string) (o : object) : object :=
   let o1 := if objref_matches (pkg, obj) o then rename_o o to else o in
   set_otype o1 (tmap (rename_ref_leaf pkg obj to) (o_type o1)).
+Definition rename_entry (pkg obj to : string) (s : schema) : schema :=
+  match s_entry s with
+  | EmptyString => s
+  | e => if objref_matches_ref (pkg, obj) (s_pkg s) e
+         then mkSchema (s_pkg s) (s_meta s) to (s_entrytype s) (s_objects s) else s
+  end.
 Definition rename_object (pkg obj to : string) (ss : schemas) : schemas :=
-  map (visit_schema_t (tmap (rename_ref_leaf pkg obj to)) (rename_object_obj pkg obj to)) ss.
+  map (fun s => rename_entry pkg obj to
+                  (visit_schema_t (tmap (rename_ref_leaf pkg obj to)) (rename_object_obj pkg obj to) s)) ss.
 
 (* ---------- omit.go ---------- *)
 Definition omit (refs : list objref) (ss : schemas) : schemas :=
@@ -295,7 +303,7 @@ Definition prefix_dh (p : string) (dh : list (string * disj)) : list (string * d
 Fixpoint prefix_ty (p : string) (t : ty) : ty :=
   match t with
   | TArray a v => TArray a (prefix_ty p v)
-  | TMap a i v => TMap a i (prefix_ty p v)
+  | TMap a i v => TMap a (prefix_ty p i) (prefix_ty p v)
   | TStruct a dh fs =>
       TStruct a (prefix_dh p dh)
               (map (fun f => mkField (f_name f) (f_comments f) (prefix_ty p (f_type f)) (f_required f)) fs)
@@ -309,8 +317,13 @@ Fixpoint prefix_ty (p : string) (t : ty) : ty :=
 Definition prefix_object_names (p : string) (ss : schemas) : schemas :=
   match p with
   | EmptyString => ss
-  | _ => map (visit_schema_t (prefix_ty p)
-                (fun o => set_otype (rename_o o (p ++ o_name o)%string) (prefix_ty p (o_type o)))) ss
+  | _ => map (fun s =>
+                let s' := visit_schema_t (prefix_ty p)
+                            (fun o => set_otype (rename_o o (p ++ o_name o)%string) (prefix_ty p (o_type o))) s in
+                match s_entry s' with
+                | EmptyString => s'
+                | e => mkSchema (s_pkg s') (s_meta s') (p ++ e)%string (s_entrytype s') (s_objects s')
+                end) ss
   end.
 
 (* ---------- append_comment_objects.go ---------- *)
